@@ -13,3 +13,8 @@ Theorem C02_interleave : C02_interleave_stmt.  Proof. exact Proofs.C02.C02_inter
 (** Chart level: every track of every successfully parsed chart (through [from_file]). *)
 From CP Require Import Spec.ChartNotes Proofs.ChartNotes.
 Theorem C02_chart : C02_chart_stmt.  Proof. exact Proofs.ChartNotes.C02_chart. Qed.
+
+(** Capstone: for a rendered section the note builder receives exactly the abstract note lines, in file
+    order, whatever S / E lines are interleaved, and nothing is reported unparsable. *)
+From CP Require Import Spec.Render Proofs.Render.
+Theorem render_note_data : render_note_data_stmt.  Proof. exact Proofs.Render.render_note_data. Qed.
